@@ -137,13 +137,31 @@ fn kind_of(e: &io::Error) -> &'static str {
     }
 }
 
-fn record(seed: u64, runs: u64, target: usize, path: &str, faults: bool) -> Value {
+fn record(seed: u64, runs: u64, target: usize, path: &str, faults: bool, palette: bool) -> Value {
     let f = std::fs::File::create(path).unwrap();
     let mut w = io::BufWriter::new(f);
     let mut r = rng::Rng::new(seed);
     let (mut events, mut bytes) = (0u64, 0u64);
     for k in 0..runs {
-        let input = if k % 6 == 5 { gen::gen_stream(&mut r, target, gen::Flavor::Full) } else { gen::gen_styled_text(&mut r, target, false) };
+        let input = if palette && k < 17 {
+            // the whole 256-colour palette (16 indices per run) and the 16 direct codes in both slots: the 16-colour
+            // reduction is a table
+            let mut v = Vec::new();
+            if k < 16 {
+                for n in (k as usize * 16)..(k as usize * 16 + 16) {
+                    v.extend_from_slice(format!("\x1b[38;5;{n}mf\x1b[48:5:{n}mb\x1b[0m").as_bytes());
+                }
+            } else {
+                for n in (30..38).chain(90..98) {
+                    v.extend_from_slice(format!("\x1b[{n}mF\x1b[{}mB\x1b[39;49m", n + 10).as_bytes());
+                }
+            }
+            v
+        } else if k % 6 == 5 {
+            gen::gen_stream(&mut r, target, gen::Flavor::Full)
+        } else {
+            gen::gen_styled_text(&mut r, target, false)
+        };
         bytes += input.len() as u64;
         let mut script = VecDeque::new();
         if faults {
@@ -321,7 +339,7 @@ fn main() {
         // record <seed> <runs> <target> <out> <faults 0|1>
         Some("record") => println!(
             "{}",
-            record(args[2].parse().unwrap(), args[3].parse().unwrap(), args[4].parse().unwrap(), &args[5], args[6] == "1")
+            record(args[2].parse().unwrap(), args[3].parse().unwrap(), args[4].parse().unwrap(), &args[5], args[6] == "1", args[6] == "2")
         ),
         // witness <out>: the canonical witness of finding F13
         Some("witness") => {
